@@ -3,10 +3,13 @@ package checks
 import (
 	"encoding/json"
 	"fmt"
+	"math/rand"
+	"sort"
 	"strings"
 	"time"
 
 	"github.com/gogpu/naga/ir"
+	"github.com/gogpu/naga/spirv"
 
 	"verif/harness/core"
 	"verif/harness/drive"
@@ -114,6 +117,12 @@ func runC07(tier, replay string) int {
 	// replay in batches
 	const batch = 40
 	nb := (len(cases) + batch - 1) / batch
+	// SPIR-V backends that are reused across batches (the history dimension: state left by one module must not leak
+	// into the layout decorations of the next)
+	pool := make(chan *spirv.Backend, core.Cores())
+	for i := 0; i < core.Cores(); i++ {
+		pool <- spirv.NewBackend(drive.SpvOptions([]string{"default", "v1.3", "v1.4", "debug"}[i%4]))
+	}
 	core.ParMap(nb, core.Cores(), func(b int) {
 		lo, hi := b*batch, min((b+1)*batch, len(cases))
 		bad := checkLayoutBatch(c, cases[lo:hi], false)
@@ -121,9 +130,77 @@ func runC07(tier, replay string) int {
 			// re-run the single case on its own (fresh module) before reporting
 			checkLayoutBatch(c, cases[lo+i:lo+i+1], true)
 		}
+		// SPIR-V decorations: fresh backend and reused backend
+		src := layoutModule(cases[lo:hi])
+		m, _, err := drive.Front(src)
+		if err != nil {
+			return
+		}
+		for _, i := range checkSpvLayoutBatch(c, cases[lo:hi], m, src, spirv.NewBackend(drive.SpvOptions("default")), "fresh backend", false) {
+			one := cases[lo+i : lo+i+1]
+			src1 := layoutModule(one)
+			if m1, _, err := drive.Front(src1); err == nil {
+				checkSpvLayoutBatch(c, one, m1, src1, spirv.NewBackend(drive.SpvOptions("default")), "fresh backend", true)
+			}
+		}
+		for _, i := range checkMslLayoutBatch(c, cases[lo:hi], m, src, false) {
+			one := cases[lo+i : lo+i+1]
+			src1 := layoutModule(one)
+			if m1, _, err := drive.Front(src1); err == nil {
+				checkMslLayoutBatch(c, one, m1, src1, true)
+			}
+		}
+		reused := <-pool
+		for _, i := range checkSpvLayoutBatch(c, cases[lo:hi], m, src, reused, "reused backend", false) {
+			// confirm on the same instance with the single case (the instance keeps its history)
+			one := cases[lo+i : lo+i+1]
+			src1 := layoutModule(one)
+			if m1, _, err := drive.Front(src1); err == nil {
+				if len(checkSpvLayoutBatch(c, one, m1, src1, reused, "reused backend", true)) == 0 {
+					// not reproducible in isolation on the instance: report the batch observation itself
+					checkSpvLayoutBatch(c, cases[lo:hi], m, src, reused, "reused backend (batch)", true)
+				}
+			}
+		}
+		pool <- reused
 	})
 	c.Traces = len(cases)
+
+	// layout probing on the executors: markers stored through / read from every leaf must land at the WGSL offsets
+	var probe []layoutCase
+	for _, lc := range cases {
+		if !lc.T.UsesF16() {
+			probe = append(probe, lc)
+		}
+	}
+	rng := rand.New(rand.NewSource(c.Seed))
+	rng.Shuffle(len(probe), func(i, j int) { probe[i], probe[j] = probe[j], probe[i] })
+	// nested and array-bearing types first, then the seeded sample
+	sort.SliceStable(probe, func(i, j int) bool { return layoutDepth(probe[i].T) > layoutDepth(probe[j].T) })
+	if n := c.Pick(300, 6000); len(probe) > n {
+		probe = append(probe[:n/2], probe[len(probe)-n/2:]...)
+	}
+	backends := []string{"spv", "hlsl", "msl", "glsl"}
+	core.ParMap(len(probe), core.Cores(), func(i int) { probeLayout(c, probe[i], backends) })
+	c.Cov["probed_types"] = len(probe)
 	return c.Finish()
+}
+
+func layoutDepth(t *wg.AType) int {
+	if t == nil {
+		return 0
+	}
+	d := 0
+	if t.K == "arr" || t.K == "struct" || t.K == "mat" {
+		d = 1
+	}
+	best := layoutDepth(t.E)
+	for _, m := range t.Ms {
+		if x := layoutDepth(m.Ty); x > best {
+			best = x
+		}
+	}
+	return d + best
 }
 
 // layoutModule prints the WGSL module declaring every case's type as variables.
